@@ -12,7 +12,7 @@ from vlib import VERIF, CHAN_RUSTFLAGS
 
 THEOREMS = chanlib.names("C06")
 # ---- step-level B-model obligations/ties of other agents: each exposes THEOREMS (+MODULE) / obligations(ctx) and tie(ctx)
-LAYER_B = ["spscb", "mpmc2b", "rdvb", "mpsc3b", "lockb"]
+LAYER_B = chanlib.LAYER_B_ALL + ["lockb"]
 
 def run(ctx):
     ctx.lean_obligations("Fv.Props.C06", THEOREMS)
@@ -24,13 +24,17 @@ def run(ctx):
         "C06: a future only moves while it is polled; its waiter records are filed under a per-future id",
     ]
     if ctx.replay:
-        chanlib.liveness_tie(ctx, "replay", [h, "run", ctx.replay], drv); return
+        if chanlib.replay_owner(ctx) is None:
+            chanlib.liveness_tie(ctx, "replay", [h, "run", ctx.replay], drv)
+        chanlib.layer_b(ctx, LAYER_B); return
     for w in ("C06_F2_wake_one_swallowed_by_dropped_future.case", "C06_F14_mpsc_b_async_send_fut_not_woken.case",
               "C06_F1_rdv_dropped_recv_future.case", "C06_F17_mpmc2_spurious_repoll_steals.case",
               "C04_OBS_oneshot_recv_after_taken.case"):
         if os.path.exists(os.path.join(VERIF, "findings", w)):
             chanlib.liveness_tie(ctx, "known-" + w[:-5], [h, "run", os.path.join(VERIF, "findings", w)], drv)
-    n = 4000 if ctx.quick else 80000
+    ns = 3000 if ctx.quick else 40000
+    chanlib.tie(ctx, "seq-differential", [h, "gen", "--seed", str(ctx.seed), "--cases", str(ns), "--mode", "seq", "--tier", ctx.tier], [drv])
+    n = 8000 if ctx.quick else 100000
     chanlib.liveness_tie(ctx, "async-futures", [h, "gen", "--seed", str(ctx.seed), "--cases", str(n), "--mode", "async",
                                                 "--tier", ctx.tier], drv)
     chanlib.liveness_tie(ctx, "conc-liveness", [h, "gen", "--seed", str(ctx.seed), "--cases", str(n), "--mode", "conc",
